@@ -320,3 +320,20 @@ package config
 //@   at call MapToJSON assert need == puts
 //@   at call os.WriteFile assert arg0 == configFilePath && need == puts
 //@   loop 0 invariant need == puts
+
+// ---- C14: the injected config database. A write that arrives through the database interface is
+// announced to subscribers by the controller after the storage call returns - exactly once, so the
+// storage itself must not push the update as well (setConfigOption's last argument; the exported
+// SetConfigOption always pushes)
+//@ func (*StorageInterface).Put
+//@   requires r != nil
+//@   nopanic off
+//@   modifies *
+//@   at call setConfigOption assert !arg2
+//@   at optional call SetConfigOption assert false
+//@   at optional call pushUpdate assert false
+//@ func (*StorageInterface).Delete
+//@   nopanic off
+//@   modifies *
+//@   at optional call setConfigOption assert !arg2
+//@   at optional call SetConfigOption assert false
